@@ -197,3 +197,29 @@ let () =
       let toks = if ts = "-" then [] else L.map parse_tok (S.split_on_char ' ' ts) in
       write_limited toks (int_of_string lim) | _ -> "BADCASE")
 (* <<< a_c08 *)
+
+(* >>> a_c08 (wave 4): call mixes through the extracted BinOps.reader_ops / lexer_ops *)
+let parse_bop (s : string) : BinOps.bop =
+  match s with
+  | "n" -> BinOps.OpNext
+  | "r" | "t" -> BinOps.OpRead
+  | _ when starts_with "by" s -> BinOps.OpBytes (nat_of_int (int_of_string (after "by" s)))
+  | _ -> failwith "bad op"
+
+let show_bres (r : BinOps.bres) : string =
+  let opt pr = function None -> "NONE" | Some x -> pr x in
+  match r with
+  | BinOps.RNext o -> show_o (opt show_tok) o
+  | BinOps.RRead o -> show_o show_tok o
+  | BinOps.RBytes o -> show_o hex_of_bytes o
+
+let show_opsrun (l : (BinOps.bres * Datatypes.nat) list) : string =
+  if l = [] then "-" else S.concat " " (L.map (fun (r, p) -> show_bres r ^ "@" ^ string_of_int (int_of_nat p)) l)
+
+let () =
+  register "bl.mrops" (function [h; cap; sch; ops] ->
+      show_opsrun (BinOps.reader_ops (nat_of_int (int_of_string cap)) (parse_sched sch) (bytes_of_hex h) (L.map parse_bop (split_ops ops)))
+    | _ -> "BADCASE");
+  register "bl.mlops" (function [h; ops] ->
+      show_opsrun (BinOps.lexer_ops (bytes_of_hex h) (L.map parse_bop (split_ops ops))) | _ -> "BADCASE")
+(* <<< a_c08 *)
